@@ -21,6 +21,9 @@ func field(v reflect.Value, i int) reflect.Value {
 	return reflect.NewAt(f.Type(), unsafe.Pointer(f.UnsafeAddr())).Elem()
 }
 
+// Field exposes field i of an addressable struct value, also when it is unexported.
+func Field(v reflect.Value, i int) reflect.Value { return field(v, i) }
+
 func addressable(v reflect.Value) reflect.Value {
 	if v.CanAddr() {
 		return v
